@@ -319,7 +319,7 @@ def compare_members(r, src, members, optional, kept_gc=None):
                 want = ([s for s, e in ex], [e for s, e in ex], {"+": "PLUS", "-": "MINUS"}[g["st"]])
                 if g.get("cds"):
                     cb = sorted(map(tuple, g["cds"]))
-                    co += (list(gd["cds_starts"]), list(gd["cds_ends"]))
+                    co += (list(gd["cds_starts"] or []), list(gd["cds_ends"] or []))  # (a CDS that came back as None is a wrong value, not a crash)
                     want += ([s for s, e in cb], [e for s, e in cb])
                 else:
                     co += (gd["cds_starts"],)
